@@ -1185,6 +1185,24 @@ struct WorldStats {
   sample: Option<Value>,
   by_frontend: BTreeMap<String, u64>,
   cut_short: bool,
+  /// searches through the long-lived FFI handle between the write calls of the history
+  ffi_probes: u64,
+  probe_failures: Vec<(String, String, Value)>,
+}
+
+/// Two searches (match_all with stored fields; match_all + aggregations) through the FFI handle,
+/// compared with the library mirror in the same state.
+fn ffi_probe(st: &mut WorldStats, f: &FfiFe, l: &LibFe, when: String) {
+  let probes = [json!({"query": {"type": "match_all"}, "limit": 100, "return_stored": true}), json!({"query": {"type": "match_all"}, "limit": 10, "return_stored": true, "aggs": aggs_json()})];
+  for (pi, r) in probes.iter().enumerate() {
+    st.evals += 1;
+    st.ffi_probes += 1;
+    let exp = l.search(r);
+    let got = f.search(r);
+    if let Err(m) = compare_pages(r, &[exp], &[got], true) {
+      st.probe_failures.push((format!("ffi-probe:{}", if pi == 0 { "match_all" } else { "aggs" }), format!("search through the same FFI handle {when}, request {r}: {m}"), r.clone()));
+    }
+  }
 }
 
 fn contents_of(o: &Out) -> Result<BTreeMap<String, Value>, String> {
@@ -1277,15 +1295,32 @@ fn run_world(env: &Env, w: &FWorld, reqs: &[Req], over: &(dyn Fn() -> bool + Syn
       return st;
     }
     if let (Some(f), Some(l)) = (&ffife, &mut libffi) {
-      if let Err(e) = l.apply(op) {
-        fail(&mut st, "build:library".into(), format!("op {i} {} failed in the library (commit per add): {e}", op.short()), Value::Null);
-        return st;
+      // the FFI leg keeps ONE handle for the whole history and searches through it after every
+      // single write call (each searchlite_add_json, each searchlite_commit), and once before the
+      // first: state kept on the handle across calls must not show
+      if i == 0 {
+        ffi_probe(&mut st, f, l, "before the first write".into());
       }
-      if let Err(e) = f.apply(op) {
-        fail(&mut st, "build:ffi".into(), format!("op {i} {} succeeds in the library but: {e}", op.short()), Value::Null);
-        return st;
+      let steps: Vec<Op> = match op {
+        Op::Add(d) => d.iter().map(|x| Op::Add(vec![x.clone()])).collect(),
+        Op::Update(d) => d.iter().map(|x| Op::Update(vec![x.clone()])).collect(),
+        o => vec![o.clone()],
+      };
+      for (k, step) in steps.iter().enumerate() {
+        if let Err(e) = l.apply(step) {
+          fail(&mut st, "build:library".into(), format!("op {i} {} failed in the library (commit per add): {e}", step.short()), Value::Null);
+          return st;
+        }
+        if let Err(e) = f.apply(step) {
+          fail(&mut st, "build:ffi".into(), format!("op {i} {} succeeds in the library but: {e}", step.short()), Value::Null);
+          return st;
+        }
+        ffi_probe(&mut st, f, l, format!("after op {i}.{k} {}", step.short()));
       }
     }
+  }
+  for (check, what, request) in std::mem::take(&mut st.probe_failures) {
+    fail(&mut st, check, what, request);
   }
   // an uncommitted tail stays uncommitted (the CLI process has exited; HTTP dropped its writer)
   lib.writer = None;
@@ -1660,6 +1695,7 @@ pub fn run(ctx: &Ctx) -> i32 {
   let outcomes: Mutex<BTreeSet<String>> = Mutex::new(BTreeSet::new());
   let by_fe: Mutex<BTreeMap<String, u64>> = Mutex::new(BTreeMap::new());
   let ffi_worlds = AtomicU64::new(0);
+  let ffi_probes = AtomicU64::new(0);
   ws.par_iter().for_each(|w| {
     if rep.elapsed_s() > deadline {
       timed_out.store(true, Ordering::Relaxed);
@@ -1675,6 +1711,7 @@ pub fn run(ctx: &Ctx) -> i32 {
       ffi_worlds.fetch_add(1, Ordering::Relaxed);
     }
     rep.add_evals(st.evals);
+    ffi_probes.fetch_add(st.ffi_probes, Ordering::Relaxed);
     nontrivial.fetch_add(st.nontrivial, Ordering::Relaxed);
     outcomes.lock().extend(st.outcomes);
     {
@@ -1707,6 +1744,7 @@ pub fn run(ctx: &Ctx) -> i32 {
     "worlds" => ws.len(),
     "worlds_done" => done.load(Ordering::Relaxed),
     "worlds_with_ffi" => ffi_worlds.load(Ordering::Relaxed),
+    "mid_history_ffi_probes" => json!({"rule": "FFI worlds keep ONE handle for the whole history; before the first write and after EVERY write call (each searchlite_add_json, each searchlite_commit) a match_all search and a match_all + aggregations search go through that handle and must equal the library mirror (commit per add) in the same state", "searches": ffi_probes.load(Ordering::Relaxed)}),
     "requests" => reqs.len(),
     "request_names" => reqs.iter().map(|r| r.name.clone()).collect::<Vec<_>>(),
     "comparisons_by_front_end" => by_fe.lock().clone(),
